@@ -47,7 +47,8 @@ def _alarm(signum, frame):
 _PROP = None
 
 
-_SEED = int(os.environ.get('VERIF_SEED') or 0)
+def _seed():
+    return int(os.environ.get('VERIF_SEED') or 0)
 
 
 def _worker_init(prop_name):
@@ -90,7 +91,7 @@ def _case_environment(idx):
     import time
     if os.environ.get('VERIF_NO_ENV') == '1':
         return
-    k = idx + _SEED
+    k = idx + _seed()
     for var, val in (('TZ', _TZS[k % len(_TZS)]), ('LANG', _LANGS[(k // 2) % len(_LANGS)]),
                      ('LC_ALL', _LANGS[(k // 3) % len(_LANGS)] if k % 4 == 0 else None),
                      ('HOME', ['/root', '/nonexistent/verif-home', '/'][k % 3]),
@@ -106,8 +107,12 @@ def _case_environment(idx):
         pass
 
 
+_REPLAY_INDEX = None
+
+
 def _worker_run(item):
     idx, case = item
+    num = _REPLAY_INDEX[idx] if _REPLAY_INDEX and idx < len(_REPLAY_INDEX) else idx      # its number in the original run
     limit = getattr(_PROP, 'CASE_TIMEOUT', 120)
     signal.signal(signal.SIGALRM, _alarm)
     signal.setitimer(signal.ITIMER_REAL, limit)
@@ -116,10 +121,10 @@ def _worker_run(item):
     every = getattr(_PROP, 'PROCESS_EVERY', 0)
     from . import seams as _seams
     variant = None
-    if every and idx % every == every - 1 and os.environ.get('VERIF_NO_PROC') != '1':
-        variant = _seams.PROC_ROTATION[(idx // every + _SEED) % len(_seams.PROC_ROTATION)]
+    if every and num % every == every - 1 and os.environ.get('VERIF_NO_PROC') != '1':
+        variant = _seams.PROC_ROTATION[(num // every + _seed()) % len(_seams.PROC_ROTATION)]
     _seams.set_proc_variant(variant)
-    _case_environment(idx)
+    _case_environment(num)
     try:
         recs = _PROP.run_case(case)
         if variant:
@@ -313,7 +318,13 @@ def _run_property(prop_name, tier, seed, replay, verbose):
     gen_info = {}
     if replay is not None:
         with open(replay) as f:
-            cases = json.load(f)['cases']
+            rp = json.load(f)
+        cases = rp['cases']
+        # the environment and the process variant of a case are functions of its number in the original run and of
+        # the seed: both are taken from the replay file, so that the case runs again as it ran
+        global _REPLAY_INDEX
+        _REPLAY_INDEX = rp.get('case_numbers')
+        os.environ['VERIF_SEED'] = str(rp.get('seed', seed))
     else:
         cases = prop.cases(tier, seed, gen_info)
     log('%d cases' % len(cases))
@@ -406,16 +417,17 @@ def _run_property(prop_name, tier, seed, replay, verbose):
         rdir = REPLAY_DIR if os.path.realpath(REPO) == '/repo' else os.path.join(REPLAY_DIR, 'scratch-copies')
         os.makedirs(rdir, exist_ok=True)
         path = os.path.join(rdir, '%s-%s-seed%d.json' % (pid, tier, seed))
-        bad_cases, seen = [], set()
+        bad_cases, bad_numbers, seen = [], [], set()
         detail = []
         for rid, clauses, fp in new[:200]:
             ci = owner[rid]
             if ci not in seen:
                 seen.add(ci)
                 bad_cases.append(cases[ci])
+                bad_numbers.append(_REPLAY_INDEX[ci] if _REPLAY_INDEX else ci)
             detail.append(dict(record=byid[rid], clauses=clauses, fingerprint=fp))
         with open(path, 'w') as f:
-            json.dump(dict(property=pid, tier=tier, seed=seed, cases=bad_cases,
+            json.dump(dict(property=pid, tier=tier, seed=seed, cases=bad_cases, case_numbers=bad_numbers,
                            rejected=detail[:50], total_rejected=len(new)), f, indent=1)
         hist = {}
         for rid, clauses, fp in new:
